@@ -13,11 +13,11 @@ Import ListNotations.
    i-th tail exchange and valat i the data value that push was asked to push;
    hi = number of exchanges so far, lo = number of head advances so far (so
    nodeat lo is the current stub), nret = number of pops that have returned;
-   plog = pushed values in exchange order, qlog = values the consumer read
+   plog = (pushing thread, pushed value) in exchange order, qlog = values the consumer read
    from the nodes returned by trypop, in return order. *)
 Record ist := { base : st; nodeat : nat -> nat; valat : nat -> nat;
                 hi : nat; lo : nat; nret : nat;
-                plog : list nat; qlog : list nat }.
+                plog : list (nat * nat); qlog : list nat }.
 
 Definition lstep (x : ist) (t : nat) : ist :=
   let s := base x in
@@ -27,7 +27,7 @@ Definition lstep (x : ist) (t : nat) : ist :=
   | PXchg => {| base := s'; nodeat := upd (nodeat x) (S (hi x)) (node T);
                 valat := upd (valat x) (S (hi x)) (arg T);
                 hi := S (hi x); lo := lo x; nret := nret x;
-                plog := plog x ++ [arg T]; qlog := qlog x |}
+                plog := plog x ++ [(t, arg T)]; qlog := qlog x |}
   | QSetHead => {| base := s'; nodeat := nodeat x; valat := valat x;
                    hi := hi x; lo := S (lo x); nret := nret x;
                    plog := plog x; qlog := qlog x |}
@@ -108,7 +108,8 @@ Definition local_ok (x : ist) (T : tst) : Prop :=
   match pc T with
   | PNull => dat s (node T) = arg T
   | PXchg => dat s (node T) = arg T /\ nxt s (node T) = 0
-  | PLink => exists i, lo x <= i < hi x /\ prev T = nodeat x i /\ node T = nodeat x (S i)
+  | PLink => exists i, lo x <= i < hi x /\ prev T = nodeat x i /\ node T = nodeat x (S i) /\
+                       arg T = valat x (S i)
   | QNext => hd T = nodeat x (lo x)
   | QSetHead => hd T = nodeat x (lo x) /\ hn T = nodeat x (S (lo x)) /\ lo x < hi x /\
                 ~ linkingN s (nodeat x (lo x))
@@ -139,7 +140,7 @@ Record GInv (x : ist) : Prop := {
   g_own_dj : forall t u n, In n (own_list (thr (base x) t)) -> In n (own_list (thr (base x) u)) -> t = u;
   g_own_nq : forall t n, In n (own_list (thr (base x) t)) ->
                          n <> 0 /\ forall i, lo x <= i <= hi x -> nodeat x i <> n;
-  g_plog : plog x = map (valat x) (seq 1 (hi x));
+  g_plog : map snd (plog x) = map (valat x) (seq 1 (hi x));
   g_qlog : qlog x = map (valat x) (seq 1 (nret x))
 }.
 
@@ -323,7 +324,7 @@ Lemma pxchg_inv x t :
   GInv {| base := s'; nodeat := upd (nodeat x) (S (hi x)) (node T);
           valat := upd (valat x) (S (hi x)) (arg T);
           hi := S (hi x); lo := lo x; nret := nret x;
-          plog := plog x ++ [arg T]; qlog := qlog x |}.
+          plog := plog x ++ [(t, arg T)]; qlog := qlog x |}.
 Proof.
   intros G Hpc s T s'.
   destruct G as [Go Gh Gt Gi Gz G0 Gl Gla Gd Gloc Gu Gc Gr Ond Odj Onq Gp Gq].
@@ -374,10 +375,10 @@ Proof.
     + rewrite NaO, VaO by lia. apply Gd. lia.
   - intros u. destruct (Nat.eq_dec u t) as [->|Hne].
     + rewrite upd_same. unfold local_ok. cbn [pc TL base nodeat valat hi lo prev node].
-      exists (hi x). rewrite NaO by lia. rewrite upd_same. repeat split; auto; lia.
+      exists (hi x). rewrite NaO by lia. rewrite !upd_same. repeat split; auto; lia.
     + rewrite upd_other by assumption. assert (Lu := Gloc u). unfold local_ok in *.
       destruct (pc (thr s u)) eqn:Hu; cbn [base nodeat valat hi lo nret]; cbn [nxt dat s']; auto.
-      * destruct Lu as [i (L1 & L2 & L3)]. exists i. rewrite !NaO by lia. repeat split; auto; lia.
+      * destruct Lu as [i (L1 & L2 & L3 & L4)]. exists i. rewrite !NaO, VaO by lia. repeat split; auto; lia.
       * rewrite NaO by lia. exact Lu.
       * destruct Lu as (L1 & L2 & L3 & L4). rewrite !NaO by lia. repeat split; auto; try lia.
         rewrite Lk by lia. exact L4.
@@ -409,7 +410,7 @@ Proof.
       * rewrite upd_same in Hin. exact (NotL Hin).
       * apply Hne. apply (Odj u t (node T)); auto.
     + rewrite NaO by lia. apply Q2. lia.
-  - rewrite seq_snoc, map_app. cbn [map]. rewrite map_seq_upd_ge by lia. rewrite <- Gp.
+  - rewrite seq_snoc, !map_app. cbn [map snd]. rewrite map_seq_upd_ge by lia. rewrite <- Gp.
     replace (1 + hi x) with (S (hi x)) by lia. rewrite upd_same. reflexivity.
   - rewrite map_seq_upd_ge by lia. exact Gq.
 Qed.
@@ -430,7 +431,7 @@ Proof.
   fold s T in Hpc.
   assert (Ethr : thr s' = upd (thr s) t (next_op T)) by reflexivity.
   assert (LT := Gloc t). fold T in LT. unfold local_ok in LT. rewrite Hpc in LT.
-  destruct LT as [k (Lk1 & Lk2 & Lk3)].
+  destruct LT as [k (Lk1 & Lk2 & Lk3 & Lk4)].
   assert (OL : own_list (next_op T) = own_list T).
   { apply own_next_op. unfold pcl. rewrite Hpc. reflexivity. }
   assert (Lk : forall n, linkingN s' n <-> (linkingN s n /\ n <> prev T)).
@@ -513,7 +514,7 @@ Proof.
     + rewrite upd_other by assumption. assert (Lu := Gloc u). unfold local_ok in *.
       destruct (Gc u ltac:(lia)) as [Pu _].
       destruct (pc (thr s u)) eqn:Hu; cbn [base nodeat valat hi lo nret]; cbn [nxt dat s']; auto; try (destruct Pu; fail).
-      destruct Lu as [i (A & B & C)]. exists i. repeat split; auto; try lia.
+      destruct Lu as [i (A & B & C & D)]. exists i. repeat split; auto; try lia.
       destruct (Nat.eq_dec i (lo x)) as [->|]; [|lia]. exfalso. apply L4. exists u. auto.
   - intros u v. thr_cases u t; thr_cases v t; intros; try discriminate; auto.
   - intros u Hu. thr_cases u t; auto. lia.
@@ -542,33 +543,44 @@ Proof. intros E H. destruct (Nat.eq_dec 0 t) as [<-|Ne]; [rewrite upd_same, E|re
 
 Ltac own_same Hpc := unfold own_list, pcl, lastl; cbn [pc last prog node hd with_pc]; rewrite Hpc; cbn [pushing popping].
 
+Ltac nochange := let m := fresh "m" in let Hm := fresh "Hm" in intros m Hm; exfalso; apply Hm; reflexivity.
+
 Theorem linv_step x t : GInv x -> GInv (lstep x t).
 Proof.
   intros G. unfold lstep, step. remember (thr (base x) t) as T eqn:HT.
   assert (LT := g_loc x G t). rewrite <- HT in LT. unfold local_ok in LT.
   assert (CT : t <> 0 -> producer_pc (pc T) /\ pushonly (prog T)) by (rewrite HT; apply (g_cons x G)).
   assert (OT : NoDup (own_list T)) by (rewrite HT; apply (g_own_nd x G)).
+  assert (RK : forall T', popping (pc T') = popping (pc T) ->
+               if popping (pc (upd (thr (base x)) t T' 0)) then nret x + 1 = lo x else nret x = lo x).
+  { intros T' E. apply ret_keep; [rewrite <- HT; exact E|apply (g_ret x G)]. }
   destruct (pc T) eqn:Hpc; cbn [fst].
   - (* PData *)
-    apply frame_step; auto; rewrite <- ?HT; try (rewrite Hpc; discriminate); try (cbn; discriminate).
-    + intros m Hm. exfalso. apply Hm. reflexivity.
+    apply (frame_step x t (with_pc T PNull) (nxt (base x)) (upd (dat (base x)) (node T) (arg T)) (nret x) (qlog x) G);
+      rewrite <- ?HT.
+    + nochange.
     + intros m Hm. destruct (Nat.eq_dec m (node T)) as [->|Ne]; [|rewrite upd_other in Hm by assumption; congruence].
       apply in_own_pushing. rewrite Hpc. reflexivity.
+    + rewrite Hpc; discriminate.
+    + cbn; discriminate.
     + replace (own_list (with_pc T PNull)) with (own_list T); auto. own_same Hpc. reflexivity.
     + replace (own_list (with_pc T PNull)) with (own_list T); [apply incl_refl|]. own_same Hpc. reflexivity.
-    + intros Ht. destruct (CT Ht). split; auto. cbn. exact I.
-    + apply ret_keep; [rewrite <- HT, Hpc; reflexivity|apply (g_ret x G)].
+    + intros Ht. destruct (CT Ht). split; [exact I|assumption].
+    + apply RK. reflexivity.
     + apply (g_qlog x G).
     + unfold local_ok. cbn. apply upd_same.
   - (* PNull *)
-    apply frame_step; auto; rewrite <- ?HT; try (rewrite Hpc; discriminate); try (cbn; discriminate).
+    apply (frame_step x t (with_pc T PXchg) (upd (nxt (base x)) (node T) 0) (dat (base x)) (nret x) (qlog x) G);
+      rewrite <- ?HT.
     + intros m Hm. destruct (Nat.eq_dec m (node T)) as [->|Ne]; [|rewrite upd_other in Hm by assumption; congruence].
       apply in_own_pushing. rewrite Hpc. reflexivity.
-    + intros m Hm. exfalso. apply Hm. reflexivity.
+    + nochange.
+    + rewrite Hpc; discriminate.
+    + cbn; discriminate.
     + replace (own_list (with_pc T PXchg)) with (own_list T); auto. own_same Hpc. reflexivity.
     + replace (own_list (with_pc T PXchg)) with (own_list T); [apply incl_refl|]. own_same Hpc. reflexivity.
-    + intros Ht. destruct (CT Ht). split; auto. cbn. exact I.
-    + apply ret_keep; [rewrite <- HT, Hpc; reflexivity|apply (g_ret x G)].
+    + intros Ht. destruct (CT Ht). split; [exact I|assumption].
+    + apply RK. reflexivity.
     + apply (g_qlog x G).
     + unfold local_ok. cbn. split; [exact LT|apply upd_same].
   - (* PXchg *)
@@ -576,47 +588,53 @@ Proof.
   - (* PLink *)
     subst T. apply plink_inv; auto.
   - (* PSkip *)
-    apply (frame_step x t (next_op T) (nxt (base x)) (dat (base x)) (nret x) (qlog x)); auto;
-      rewrite <- ?HT; try (rewrite Hpc; discriminate); try apply next_op_not_plink.
-    + intros m Hm. exfalso. apply Hm. reflexivity.
-    + intros m Hm. exfalso. apply Hm. reflexivity.
+    apply (frame_step x t (next_op T) (nxt (base x)) (dat (base x)) (nret x) (qlog x) G); rewrite <- ?HT.
+    + nochange.
+    + nochange.
+    + rewrite Hpc; discriminate.
+    + apply next_op_not_plink.
     + rewrite own_next_op; auto. unfold pcl. rewrite Hpc. reflexivity.
     + rewrite own_next_op; [apply incl_refl|]. unfold pcl. rewrite Hpc. reflexivity.
     + intros Ht. apply next_op_cons. apply (CT Ht).
-    + apply ret_keep; [rewrite <- HT, Hpc; apply next_op_popping|apply (g_ret x G)].
+    + apply RK. apply next_op_popping.
     + apply (g_qlog x G).
     + apply next_op_ok.
   - (* QHead *)
-    apply (frame_step x t _ (nxt (base x)) (dat (base x)) (nret x) (qlog x)); auto;
-      rewrite <- ?HT; try (rewrite Hpc; discriminate); try (cbn; discriminate).
-    + intros m Hm. exfalso. apply Hm. reflexivity.
-    + intros m Hm. exfalso. apply Hm. reflexivity.
+    match goal with |- GInv {| base := set_thr _ _ ?X |} =>
+      apply (frame_step x t X (nxt (base x)) (dat (base x)) (nret x) (qlog x) G); rewrite <- ?HT end.
+    + nochange.
+    + nochange.
+    + rewrite Hpc; discriminate.
+    + cbn; discriminate.
     + match goal with |- NoDup ?l => replace l with (own_list T); auto end. own_same Hpc. reflexivity.
     + match goal with |- incl ?l _ => replace l with (own_list T); [apply incl_refl|] end. own_same Hpc. reflexivity.
     + intros Ht. destruct (CT Ht) as [[] _].
-    + apply ret_keep; [rewrite <- HT, Hpc; reflexivity|apply (g_ret x G)].
+    + apply RK. reflexivity.
     + apply (g_qlog x G).
     + unfold local_ok. cbn. apply (g_head x G).
   - (* QNext *)
     destruct (nxt (base x) (hd T)) eqn:Hnx; cbn [fst].
-    + apply (frame_step x t (next_op T) (nxt (base x)) (dat (base x)) (nret x) (qlog x)); auto;
-        rewrite <- ?HT; try (rewrite Hpc; discriminate); try apply next_op_not_plink.
-      * intros m Hm. exfalso. apply Hm. reflexivity.
-      * intros m Hm. exfalso. apply Hm. reflexivity.
+    + apply (frame_step x t (next_op T) (nxt (base x)) (dat (base x)) (nret x) (qlog x) G); rewrite <- ?HT.
+      * nochange.
+      * nochange.
+      * rewrite Hpc; discriminate.
+      * apply next_op_not_plink.
       * rewrite own_next_op; auto. unfold pcl. rewrite Hpc. reflexivity.
       * rewrite own_next_op; [apply incl_refl|]. unfold pcl. rewrite Hpc. reflexivity.
       * intros Ht. destruct (CT Ht) as [[] _].
-      * apply ret_keep; [rewrite <- HT, Hpc; apply next_op_popping|apply (g_ret x G)].
+      * apply RK. apply next_op_popping.
       * apply (g_qlog x G).
       * apply next_op_ok.
-    + apply (frame_step x t _ (nxt (base x)) (dat (base x)) (nret x) (qlog x)); auto;
-        rewrite <- ?HT; try (rewrite Hpc; discriminate); try (cbn; discriminate).
-      * intros m Hm. exfalso. apply Hm. reflexivity.
-      * intros m Hm. exfalso. apply Hm. reflexivity.
+    + match goal with |- GInv {| base := set_thr _ _ ?X |} =>
+        apply (frame_step x t X (nxt (base x)) (dat (base x)) (nret x) (qlog x) G); rewrite <- ?HT end.
+      * nochange.
+      * nochange.
+      * rewrite Hpc; discriminate.
+      * cbn; discriminate.
       * match goal with |- NoDup ?l => replace l with (own_list T); auto end. own_same Hpc. reflexivity.
       * match goal with |- incl ?l _ => replace l with (own_list T); [apply incl_refl|] end. own_same Hpc. reflexivity.
       * intros Ht. destruct (CT Ht) as [[] _].
-      * apply ret_keep; [rewrite <- HT, Hpc; reflexivity|apply (g_ret x G)].
+      * apply RK. reflexivity.
       * apply (g_qlog x G).
       * unfold local_ok. cbn [pc base nodeat lo hi hd hn].
         rewrite LT in Hnx.
@@ -625,46 +643,57 @@ Proof.
           rewrite E in Hnx. rewrite (g_last x G) in Hnx. discriminate. }
         destruct (g_link x G (lo x) ltac:(lia)) as [[A B]|[A B]]; [congruence|].
         repeat split; auto; try congruence.
-        intros L. apply A. revert L. apply linkingN_local with (t := t) (T' := {| pc := QSetHead; node := node T; arg := arg T; prev := prev T; hd := hd T; hn := S n; rdv := rdv T; last := last T; prog := prog T; opi := opi T |}); [reflexivity| |cbn; discriminate].
+        intros L. apply A. revert L.
+        match goal with |- linkingN ?s' _ -> _ =>
+          apply (linkingN_local (base x) s' t {| pc := QSetHead; node := node T; arg := arg T; prev := prev T; hd := hd T; hn := S n; rdv := rdv T; last := last T; prog := prog T; opi := opi T |}) end;
+          [reflexivity| |cbn; discriminate].
         rewrite <- HT, Hpc. discriminate.
   - (* QSetHead *)
     subst T. apply qsethead_inv; auto.
   - (* QRead *)
-    apply (frame_step x t _ (nxt (base x)) (dat (base x)) (nret x) (qlog x)); auto;
-      rewrite <- ?HT; try (rewrite Hpc; discriminate); try (cbn; discriminate).
-    + intros m Hm. exfalso. apply Hm. reflexivity.
-    + intros m Hm. exfalso. apply Hm. reflexivity.
+    match goal with |- GInv {| base := set_thr _ _ ?X |} =>
+      apply (frame_step x t X (nxt (base x)) (dat (base x)) (nret x) (qlog x) G); rewrite <- ?HT end.
+    + nochange.
+    + nochange.
+    + rewrite Hpc; discriminate.
+    + cbn; discriminate.
     + match goal with |- NoDup ?l => replace l with (own_list T); auto end. own_same Hpc. reflexivity.
     + match goal with |- incl ?l _ => replace l with (own_list T); [apply incl_refl|] end. own_same Hpc. reflexivity.
     + intros Ht. destruct (CT Ht) as [[] _].
-    + apply ret_keep; [rewrite <- HT, Hpc; reflexivity|apply (g_ret x G)].
+    + apply RK. reflexivity.
     + apply (g_qlog x G).
     + unfold local_ok. cbn. apply LT.
   - (* QWrite *)
-    apply frame_step; auto; rewrite <- ?HT; try (rewrite Hpc; discriminate); try (cbn; discriminate).
-    + intros m Hm. exfalso. apply Hm. reflexivity.
+    apply (frame_step x t (with_pc T QUse) (nxt (base x)) (upd (dat (base x)) (hd T) (rdv T)) (nret x) (qlog x) G);
+      rewrite <- ?HT.
+    + nochange.
     + intros m Hm. destruct (Nat.eq_dec m (hd T)) as [->|Ne]; [|rewrite upd_other in Hm by assumption; congruence].
       apply in_own_popping. rewrite Hpc. reflexivity.
+    + rewrite Hpc; discriminate.
+    + cbn; discriminate.
     + replace (own_list (with_pc T QUse)) with (own_list T); auto. own_same Hpc. reflexivity.
     + replace (own_list (with_pc T QUse)) with (own_list T); [apply incl_refl|]. own_same Hpc. reflexivity.
     + intros Ht. destruct (CT Ht) as [[] _].
-    + apply ret_keep; [rewrite <- HT, Hpc; reflexivity|apply (g_ret x G)].
+    + apply RK. reflexivity.
     + apply (g_qlog x G).
     + unfold local_ok. cbn. rewrite upd_same. exact LT.
   - (* QUse *)
     assert (T0 : t = 0).
     { destruct (Nat.eq_dec t 0) as [|Ne]; auto. destruct (CT Ne) as [[] _]. }
     assert (HdO : In (hd T) (own_list T)) by (apply in_own_popping; rewrite Hpc; reflexivity).
-    assert (Hnz : hd T <> 0) by (rewrite HT in HdO; apply (g_own_nq x G t _ HdO)).
+    assert (Hnz : hd T <> 0).
+    { assert (HdO' := HdO). rewrite HT in HdO'. destruct (g_own_nq x G t _ HdO') as [Q _]. rewrite <- HT in Q. exact Q. }
     assert (OD : own_list (next_op (done_pop T)) = hd T :: pushed (prog T)).
     { rewrite own_next_op by reflexivity. unfold own_list, pcl, lastl. cbn. destruct (hd T); [congruence|reflexivity]. }
     assert (OTT : own_list T = lastl T ++ hd T :: pushed (prog T)).
     { unfold own_list, pcl. rewrite Hpc. reflexivity. }
     assert (Rt := g_ret x G). rewrite <- T0, <- HT, Hpc in Rt. cbn in Rt.
-    apply (frame_step x t _ (nxt (base x)) (dat (base x))); auto;
-      rewrite <- ?HT; try (rewrite Hpc; discriminate); try apply next_op_not_plink.
-    + intros m Hm. exfalso. apply Hm. reflexivity.
-    + intros m Hm. exfalso. apply Hm. reflexivity.
+    apply (frame_step x t (next_op (done_pop T)) (nxt (base x)) (dat (base x)) (S (nret x))
+                      (qlog x ++ [dat (base x) (hd T)]) G); rewrite <- ?HT.
+    + nochange.
+    + nochange.
+    + rewrite Hpc; discriminate.
+    + apply next_op_not_plink.
     + rewrite OD. rewrite OTT in OT. clear - OT. induction (lastl T); cbn in *; auto. inversion OT; auto.
     + rewrite OD, OTT. intros n Hn. apply in_or_app. right. exact Hn.
     + intros Ht. contradiction.
